@@ -111,9 +111,9 @@ type normalizer struct {
 	// mvRecvType: the saved receiver of a propagated method value (a synthesized identifier) -> the original
 	// receiver expression, whose type it has
 	mvRecvType map[*ast.Ident]ast.Expr
-	seq   int
-	stats *normStats
-	gen   func(token.Pos) bool
+	seq        int
+	stats      *normStats
+	gen        func(token.Pos) bool
 
 	// per top-level function being transformed
 	curFile  *ast.File
